@@ -70,7 +70,7 @@ func Fields(typesMap TypesMap, typ *types.Struct, external bool) *Named {
 			external: external,
 			Type:     fieldType,
 			typeStr: func() string {
-				return typesMap.TypeString(fieldType)
+				return typesMap.TypeString(spellable(fieldType, external))
 			},
 		}
 		n.Fields = append(n.Fields, f)
@@ -81,6 +81,19 @@ func Fields(typesMap TypesMap, typ *types.Struct, external bool) *Named {
 		}
 	}
 	return n
+}
+
+// spellable returns a type with the same memory layout, that can be named outside of the package of the struct.
+// A private field of a struct of another package can have a type that is not exported by that package, for example bytes.readOp.
+// Such a type cannot be named, but its underlying type can.
+func spellable(typ types.Type, external bool) types.Type {
+	if !external {
+		return typ
+	}
+	if named, ok := types.Unalias(typ).(*types.Named); ok && named.Obj().Pkg() != nil && !named.Obj().Exported() {
+		return named.Underlying()
+	}
+	return typ
 }
 
 func GetStructFields(s *types.Struct) []*types.Var {
